@@ -27,12 +27,18 @@ from typing import Any, Optional
 
 from frozendict import frozendict
 
-from labtech.types import TaskResult, is_task
+from labtech.types import TaskInfo, TaskResult
 
 from .sim import Entity, HarnessError, Sim, SimAbort, _Frozen
 
 _SIMOS: dict[int, 'SimOS'] = {}
 _NEXT_ID = [1]
+
+
+def is_task(obj) -> bool:
+    """Same test as labtech.types.is_task, without executing labtech code: seam
+    code must not create interrupt instants (LINE events) of its own."""
+    return isinstance(getattr(type(obj), '_lt', None), TaskInfo) and hasattr(obj, '_is_task')
 
 
 def classify_item(obj) -> str:
